@@ -1,6 +1,7 @@
 (* C16 - "skipping is sound": what a reference interpreter renders from the tokens emitted by Stream (caches,
-   dropped `q Q`, merged `ET BT`) is what it renders from the un-optimised token sequence; and the refutations
-   (finding F12): operators installed behind the caches make a skipped operator non-redundant. *)
+   dropped `q Q`, merged `ET BT`) is what it renders from the un-optimised token sequence.  (Before the fixes of
+   finding F12 - set_state and the Pattern colour went behind the caches - the statement needed a guard and was
+   refuted without it; the model follows the fixed source, where the caches are dropped.) *)
 From Coq Require Import ZArith List Bool Lia.
 Require Import WV.model.C16Stream WV.proofs.C16_balance.
 Import ListNotations.
@@ -424,10 +425,10 @@ Proof.
 Qed.
 
 Lemma step_SInv o b b' pend pend' s s' n :
-  SInv b pend s n -> wstep o b = Some b' -> tmstep pend o = Some pend' -> op_guard s o = true ->
+  SInv b pend s n -> wstep o b = Some b' -> tmstep pend o = Some pend' ->
   mstep o s = Some s' -> SInv b' pend' s' (nstep o n).
 Proof.
-  intros H W TM G M. destruct o; simpl in W, TM, G, M; cbn [nstep].
+  intros H W TM M. destruct o; simpl in W, TM, M; cbn [nstep].
   - (* Push *)
     destruct (in_text b) eqn:T; [discriminate|]. inversion W; subst; clear W. inversion TM; subst.
     unfold m_push in M. destruct (ctms s) as [|top r] eqn:C; [discriminate|]. inversion M; subst.
@@ -448,26 +449,21 @@ Proof.
     inversion W; subst. inversion TM; subst. inversion M; subst. apply set_alpha_SInv. exact H.
   - (* SetFont *)
     inversion W; subst. inversion TM; subst. inversion M; subst. apply set_font_SInv. exact H.
-  - (* SetState: guarded *)
+  - (* SetState: the cache of an alpha the dictionary sets is dropped *)
     inversion W; subst. inversion TM; subst. inversion M; subst. clear W TM M.
-    apply andb_true_iff in G. destruct G as [G1 G2].
     pose proof (si_coh _ _ _ _ H) as (C1 & C2 & C3 & C4 & C5).
     eapply (setter_SInv b' pend' s n _ _ [Tgs _ (ca, CA)] [Tgs _ (ca, CA)]); eauto; try reflexivity.
     unfold Coh, m_set_state; simpl. repeat split; auto.
-    + intros k Hk. destruct (C3 k Hk) as (a & i & K & GA). exists a, i. split; auto.
-      rewrite Hk in G1. simpl in G1. rewrite orb_false_r in G1. destruct ca; [discriminate|]. exact GA.
-    + intros k Hk. destruct (C4 k Hk) as (a & i & K & GA). exists a, i. split; auto.
-      rewrite Hk in G2. simpl in G2. rewrite orb_false_r in G2. destruct CA; [discriminate|]. exact GA.
-  - (* PatternColor: guarded *)
+    + intros k Hk. destruct ca; [discriminate|]. destruct (C3 k Hk) as (a & i & K & GA). exists a, i. auto.
+    + intros k Hk. destruct CA; [discriminate|]. destruct (C4 k Hk) as (a & i & K & GA). exists a, i. auto.
+  - (* PatternColor: the cached colour is dropped *)
     inversion W; subst. inversion TM; subst. inversion M; subst. clear W TM M.
     pose proof (si_coh _ _ _ _ H) as (C1 & C2 & C3 & C4 & C5).
     eapply (setter_SInv b' pend' s n _ _ [Tpat stroke p; Tcs stroke PATTERN_SPACE] [Tpat stroke p; Tcs stroke PATTERN_SPACE]);
       eauto; try reflexivity.
-    unfold Coh; simpl. destruct stroke; simpl.
-    + destruct (ccols s); [discriminate|]. destruct (i_g (interp_rev (toks s))); simpl in *.
-      repeat split; auto. intros; discriminate.
-    + destruct (ccol s); [discriminate|]. destruct (i_g (interp_rev (toks s))); simpl in *.
-      repeat split; auto. intros; discriminate.
+    unfold Coh, m_pattern_color; simpl. destruct stroke; simpl.
+    + destruct (i_g (interp_rev (toks s))); simpl in *. repeat split; auto. intros; discriminate.
+    + destruct (i_g (interp_rev (toks s))); simpl in *. repeat split; auto. intros; discriminate.
   - (* Transform *)
     destruct (in_text b) eqn:T; [discriminate|]. inversion W; subst. inversion TM; subst.
     unfold m_transform in M. destruct (ctms s) as [|top r]; [discriminate|]. inversion M; subst.
@@ -506,14 +502,13 @@ Proof.
 Qed.
 
 Lemma run_SInv ops : forall b b' pend s s' n,
-  SInv b pend s n -> wscan b ops = Some b' -> tm_disciplined pend ops = true -> guarded ops s = true ->
+  SInv b pend s n -> wscan b ops = Some b' -> tm_disciplined pend ops = true ->
   run ops s = Some s' -> exists pend', SInv b' pend' s' (nrun ops n).
 Proof.
-  induction ops as [|o r IH]; intros b b' pend s s' n H W TM G R.
+  induction ops as [|o r IH]; intros b b' pend s s' n H W TM R.
   - simpl in *. inversion W; inversion R; subst. eauto.
-  - simpl in W, G, R. destruct (wstep o b) as [b1|] eqn:E; [|discriminate].
+  - simpl in W, R. destruct (wstep o b) as [b1|] eqn:E; [|discriminate].
     destruct (tm_disciplined_cons _ _ _ TM) as (p1 & TM1 & TMr).
-    apply andb_true_iff in G. destruct G as [G1 G2].
     destruct (mstep o s) as [s1|] eqn:M; [|discriminate].
     unfold nrun. simpl. apply (IH b1 b' p1 s1 s' (nstep o n)); auto.
     eapply step_SInv; eauto.
@@ -533,36 +528,17 @@ Qed.
 
 (* ------------------------------------------------------------------------------------- main theorem *)
 Theorem skip_is_sound mark d ops s' :
-  wb ops = true -> tm_disciplined false ops = true -> guarded ops (fresh mark d) = true ->
+  wb ops = true -> tm_disciplined false ops = true ->
   run ops (fresh mark d) = Some s' ->
   let X := interp (rev (toks s')) in
   let Y := interp (rev (ntoks (nrun ops (nfresh mark d)))) in
   i_err X = false /\ i_err Y = false /\ i_obs X = i_obs Y /\ i_g X = i_g Y /\ i_stack X = i_stack Y /\
   i_text X = false /\ i_text Y = false.
 Proof.
-  unfold wb. destruct (wscan [] ops) as [[|x r]|] eqn:W; try discriminate. intros _ TM G R.
-  destruct (run_SInv ops [] [] false (fresh mark d) s' (nfresh mark d) (SInv_fresh mark d) W TM G R) as (p & []).
+  unfold wb. destruct (wscan [] ops) as [[|x r]|] eqn:W; try discriminate. intros _ TM R.
+  destruct (run_SInv ops [] [] false (fresh mark d) s' (nfresh mark d) (SInv_fresh mark d) W TM R) as (p & []).
   simpl. rewrite !interp_rev_fwd. repeat split; auto.
 Qed.
-
-(* calls that never go behind the caches are guarded *)
-Lemma raw_free_guarded ops : forall s, forallb raw_free ops = true -> guarded ops s = true.
-Proof.
-  induction ops as [|o r IH]; simpl; intros s H; auto.
-  apply andb_true_iff in H. destruct H as [H1 H2].
-  apply andb_true_iff. split.
-  - destruct o; simpl; auto. destruct ca, CA; simpl in H1; try discriminate. reflexivity. discriminate.
-  - destruct (mstep o s); auto.
-Qed.
-
-Corollary skip_is_sound_raw_free mark d ops s' :
-  wb ops = true -> tm_disciplined false ops = true -> forallb raw_free ops = true ->
-  run ops (fresh mark d) = Some s' ->
-  let X := interp (rev (toks s')) in
-  let Y := interp (rev (ntoks (nrun ops (nfresh mark d)))) in
-  i_err X = false /\ i_err Y = false /\ i_obs X = i_obs Y /\ i_g X = i_g Y /\ i_stack X = i_stack Y /\
-  i_text X = false /\ i_text Y = false.
-Proof. intros. apply skip_is_sound; auto. apply raw_free_guarded; auto. Qed.
 
 (* boolean form, as evaluated by the correspondence judge *)
 Lemma mat_eqb_refl m : mat_eqb m m = true.
@@ -583,60 +559,38 @@ Proof.
 Qed.
 
 Corollary skip_is_sound_b mark d ops s' :
-  wb ops = true -> tm_disciplined false ops = true -> guarded ops (fresh mark d) = true ->
+  wb ops = true -> tm_disciplined false ops = true ->
   run ops (fresh mark d) = Some s' ->
   same_rendering (interp (rev (toks s'))) (interp (rev (ntoks (nrun ops (nfresh mark d))))) = true.
 Proof.
-  intros W TM G R. destruct (skip_is_sound mark d ops s' W TM G R) as (A & B & C & D & E & F & F').
+  intros W TM R. destruct (skip_is_sound mark d ops s' W TM R) as (A & B & C & D & E & F & F').
   unfold same_rendering. rewrite A, B, C, D, E, F, F'. simpl.
   rewrite (list_eqb_refl obs_eqb obs_eqb_refl), gst_eqb_refl, (list_eqb_refl gst_eqb gst_eqb_refl). reflexivity.
 Qed.
 
-(* ------------------------------------------------------------------------- refutations (finding F12) *)
-(* an ExtGState carrying /ca (what set_alpha_state installs: 'ca': 1) goes behind the alpha cache: the next
-   set_alpha with the cached value is skipped although the graphics state no longer has that value *)
+(* ----------------------------------------------------- the former witnesses of finding F12 are now sound *)
+(* an ExtGState carrying /ca (what set_alpha_state installs: 'ca': 1) used to go behind the alpha cache: the next
+   set_alpha with the cached value was skipped although the graphics state no longer had that value *)
 Definition f12_alpha_witness : list op :=
   [SetAlpha 500 false false None; Push; SetState (Some 1000) None; SetAlpha 500 false false None; Tok 0; Tok 1; Pop].
-
-Definition f12_alpha_state : st :=
-  Eval vm_compute in match run f12_alpha_witness (fresh false []) with Some s => s | None => fresh false [] end.
-
-Theorem skip_unsound_after_raw_gs :
-  exists ops s',
-    wb ops = true /\ tm_disciplined false ops = true /\ run ops (fresh false []) = Some s' /\
-    guarded ops (fresh false []) = false /\
-    same_rendering (interp (rev (toks s'))) (interp (rev (ntoks (nrun ops (nfresh false []))))) = false /\
-    (* the fill is painted with alpha 1 by the emitted tokens, 0.5 by the un-optimised ones *)
-    map (fun o => g_ca (snd (fst (fst o)))) (i_obs (interp (rev (toks s')))) = [1000; 1000] /\
-    map (fun o => g_ca (snd (fst (fst o)))) (i_obs (interp (rev (ntoks (nrun ops (nfresh false [])))))) = [500; 500].
-Proof.
-  exists f12_alpha_witness, f12_alpha_state. repeat split; vm_compute; reflexivity.
-Qed.
-
 (* same for the Pattern colour space installed by set_color_space/set_color_special *)
 Definition f12_pattern_witness : list op :=
   [SetColor false (0, 0) 1000 false; Push; PatternColor false 0; Tok 0; Tok 1; Push; SetColor false (0, 0) 1000 false; Tok 0; Tok 1; Pop; Pop].
 
-Definition f12_pattern_state : st :=
-  Eval vm_compute in match run f12_pattern_witness (fresh false []) with Some s => s | None => fresh false [] end.
-
-Theorem skip_unsound_after_pattern_colour :
-  exists ops s',
-    wb ops = true /\ tm_disciplined false ops = true /\ run ops (fresh false []) = Some s' /\
-    guarded ops (fresh false []) = false /\
-    same_rendering (interp (rev (toks s'))) (interp (rev (ntoks (nrun ops (nfresh false []))))) = false /\
-    map (fun o => g_fill (snd (fst (fst o)))) (i_obs (interp (rev (toks s')))) = [PPat 0; PPat 0; PPat 0; PPat 0] /\
-    map (fun o => g_fill (snd (fst (fst o)))) (i_obs (interp (rev (ntoks (nrun ops (nfresh false [])))))) =
-      [PCol (0, 0); PCol (0, 0); PPat 0; PPat 0].
+Example f12_witnesses_render_as_intended :
+  (forall s', run f12_alpha_witness (fresh false []) = Some s' ->
+     map (fun o => g_ca (snd (fst (fst o)))) (i_obs (interp (rev (toks s')))) = [500; 500]) /\
+  (forall s', run f12_pattern_witness (fresh false []) = Some s' ->
+     map (fun o => g_fill (snd (fst (fst o)))) (i_obs (interp (rev (toks s')))) = [PCol (0, 0); PCol (0, 0); PPat 0; PPat 0]).
 Proof.
-  exists f12_pattern_witness, f12_pattern_state. repeat split; vm_compute; reflexivity.
+  split; intros s' R; vm_compute in R; inversion R; subst; vm_compute; reflexivity.
 Qed.
 
 Example skip_is_sound_example :
   let ops := [Push; SetColor false (0,0) 500 false; Tok 0; Tok 1; Push; SetColor false (0,0) 500 false; SetColor true (7, 8) 1000 false;
               BeginText; TextMatrix mat_id; SetFont (0,0); Tok 8; EndText; Push; Pop;
               BeginText; TextMatrix (1,0,0,1,5,5); SetFont (0,0); Tok 8; EndText; Pop; SetColor false (0,0) 500 false; Tok 1; Pop] in
-  wb ops = true /\ tm_disciplined false ops = true /\ forallb raw_free ops = true /\
+  wb ops = true /\ tm_disciplined false ops = true /\
   option_map (fun s => length (toks s)) (run ops (fresh false [])) = Some 21%nat /\
   length (ntoks (nrun ops (nfresh false []))) = 28%nat.
 Proof. repeat split; vm_compute; reflexivity. Qed.
